@@ -42,6 +42,7 @@ def serialize_compact(
     alg = registry.get_alg(protected["alg"])
     key = guess_key(private_key, obj, True)
     key.check_use("sig")
+    alg.check_key_type(key)
 
     header_segment = json_b64encode(protected)
     signing_input = header_segment + b"." + obj.payload
@@ -76,6 +77,7 @@ def deserialize_compact(
     key = guess_key(public_key, obj)
     key.check_use("sig")
     alg = registry.get_alg(headers["alg"])
+    alg.check_key_type(key)
 
     signing_input = obj.segments["header"] + b"." + obj.payload
     sig = urlsafe_b64decode(obj.segments["signature"])
